@@ -2,13 +2,23 @@ import JL.Generated.Fns
 /-! tie: `get`, as translated from the crate's current source, is the model's function - for every input -/
 namespace JL.Tie
 open JL
+set_option linter.unusedSimpArgs false  -- which of the listed facts are used depends on how the source is spelled
 
+/- The cases of the model (sign of the index; whether a negative index reaches before the start) are decided first, and only
+then are the library calls unfolded (`simp [rs, <the facts>]`), so that nothing depends on how the source arranges its tests
+(`let … = if … else …?`, early `return`, `match`), nor on the names of its locals. -/
 theorem get {α : Type} (xs : List α) (idx : Int) : Gen.get xs idx = Data.get xs idx := by
   unfold Gen.get Data.get
-  simp only [rs]
+  -- every fact is supplied in both spellings (`0 ≤ idx` / `idx < 0`, `k ≤ n` / `n < k`): which one the code tests is its business
   by_cases h : 0 ≤ idx
-  · have : idx.natAbs = idx.toNat := by omega
-    simp [h, this]
-  · by_cases h2 : idx.natAbs ≤ xs.length <;> simp [h, h2]
+  · have h' : idx.natAbs = idx.toNat := by omega
+    have h'' : ¬ idx < 0 := by omega
+    simp [rs, h, h', h'']
+  · have h' : idx < 0 := by omega
+    by_cases h2 : idx.natAbs ≤ xs.length
+    · have h2' : ¬ xs.length < idx.natAbs := by omega
+      simp [rs, h, h', h2, h2']
+    · have h2' : xs.length < idx.natAbs := by omega
+      simp [rs, h, h', h2, h2']
 
 end JL.Tie
